@@ -14,10 +14,12 @@ RULE = ("unit expressions are ASTs of the grammar E := F (('*'|'/') F)*, F := A 
         "x := [-]number | (number) | (number/number), group nesting <= 4, names from my table of numericalunits names "
         "(common atomistic units weighted, all 165 classified names, digits/underscore/non-ASCII names), rendered with a "
         "drawn whitespace string (spaces, tabs, newlines, carriage returns) in every token gap; every case is evaluated "
-        "under a drawn working-unit configuration (random seed, 'SI', or one of the non-over-determined named choices). "
+        "under a drawn working-unit configuration (random seed, 'SI', or one of the non-over-determined named choices with its "
+        "keywords passed in a drawn order). "
         "Non-trivial: precedence/identity - the expression has >= 2 operators of different precedence or a parenthesised "
         "sub-expression raised to a power; invariance - the two expressions differ and >= 2 distinct configurations; "
-        "named - a chosen unit is not an SI unit (also the seed='SI' and integer-seed cases); lammps_dims - a judged entry "
+        "named - a chosen unit is not an SI unit (also the seed='SI' and integer-seed cases), every choice with all permutations of "
+        "its keywords; history - a walk with >= 2 named choices and >= 1 transition that changes exactly one quantity; lammps_dims - a judged entry "
         "(style other than lj, key present); atheris - a campaign that ran.")
 ASSUMPTIONS = ["numericalunits assigns dimensionally consistent values to its names for every seed (its values are the leaves "
                "of my evaluator; my dimension table was verified against it by regression)",
@@ -26,9 +28,10 @@ ASSUMPTIONS = ["numericalunits assigns dimensionally consistent values to its na
 LEVEL_TEXT = ("Property-based exploration: grammar-generated unit expressions (depth <= 4, random whitespace) under random, SI "
               "and named working units judged by an independent AST evaluator, set/get/set_literal round trips on scalars and "
               "arrays, same-dimension expression pairs compared across three configurations, exhaustive enumeration of the "
-              "named working-unit choices and of the LAMMPS style tables (dimension by regression over random seeds); "
-              "optional byte-level atheris campaign on uc.parse.")
-TECHNIQUE = "property-based testing (Hypothesis, 16 seeded shards): independent AST evaluator, dimension algebra, exhaustive named-choice enumeration, atheris grammar fuzzing"
+              "named working-unit choices in every keyword order and of the LAMMPS style tables (dimension by regression over random seeds); "
+              "walks through named choices differing in one quantity at a time with a fixed battery of compound expressions of every "
+              "dimension class re-evaluated after each reset; optional byte-level atheris campaign on uc.parse.")
+TECHNIQUE = "property-based testing (Hypothesis, 16 seeded shards): independent AST evaluator, dimension algebra, exhaustive named-choice x keyword-order enumeration, single-quantity reset histories, atheris grammar fuzzing"
 WALL = {'quick': 58, 'thorough': 600}
 
 EPS = 2.220446049250313e-16
@@ -373,7 +376,7 @@ def oracle_named(case):
         uc.reset_units(seed='SI')
         uc.reset_units(**_ordered(units, orders[-1]))
         _chosen_are_one(uc, units, orders[-1], blocked)
-        _same_table(uc, units, orders[-1], t1, 'called after SI', 'after %r' % (case.get('pre'),))
+        _same_table(uc, units, orders[-1], t1, 'called after SI', 'after %r with the keywords in the order %s' % (case.get('pre'), ', '.join(orders[0])))
         # ... nor of the order in which the keywords are written
         for k, order in enumerate(orders[1:-1]):
             if k % 2 == 0 and PRE_CYCLE[(k // 2) % len(PRE_CYCLE)] is not None:
@@ -389,6 +392,224 @@ def oracle_named(case):
             labels.add('energy_solves_' + ('mass' if 'mass' not in units else 'time' if 'time' not in units else 'length'))
     finally:
         _restore(uc)
+    return labels
+
+
+# ----------------------------------------------------------------------------- history (walks through named choices)
+
+def _u(name, x=None):
+    return ['u', name, None if x is None else ['x', x]]
+
+
+def _n(lit, x=None):
+    return ['n', lit, None if x is None else ['x', x]]
+
+
+def _g(E, x=None):
+    return ['g', E, None if x is None else ['x', x]]
+
+
+def _E(*a):
+    fs = [_u(f) if isinstance(f, str) else f for f in a[0::2]]
+    return ['E', fs, ''.join(a[1::2])]
+
+
+# dimensions (m, kg, s, C, K) of battery names that are not in the table of pbt/oracles/unitexpr.py
+EXTRA_DIM = {'debye': (1, 0, 0, 1, 0), 'kB': (2, 1, -2, 0, -1), 'Rgas': (2, 1, -2, 0, -1), 'F': (-2, -1, 2, 2, 0),
+             'ohm': (2, 1, -1, -2, 0), 'T': (0, 1, -1, -1, 0)}
+BATTERY_DIM = dict(ux.DIM, **EXTRA_DIM)
+
+# fixed battery of compound expressions, several of every dimension class (the same strings at every step of a walk)
+BATTERY = [
+    # dipole moment
+    _E('e', '*', 'angstrom'), _E('C', '*', 'm'), _E('debye'), _E('mC', '*', 'nm'),
+    # surface charge density
+    _E('C', '/', _u('m', '2')), _E('e', '/', _u('angstrom', '2')), _E('mC', '/', _u('cm', '2')),
+    # pressure / energy density
+    _E('eV', '/', _u('angstrom', '3')), _E('GPa'), _E('J', '/', _u('m', '3')), _E('N', '/', _u('m', '2')),
+    _E('kg', '/', _g(_E('m', '*', _u('s', '2')))), _E('amu', '/', 'angstrom', '/', _u('ps', '2')),
+    # energy
+    _E('amu', '*', _u('angstrom', '2'), '/', _u('ps', '2')), _E('kg', '*', _u('m', '2'), '/', _u('s', '2')), _E('eV'),
+    _E('e', '*', 'V'), _E('kcal', '/', 'mol'), _E('N', '*', 'm'), _E('C', '*', 'V'),
+    # momentum
+    _E('kg', '*', 'm', '/', 's'), _E('amu', '*', 'angstrom', '/', 'ps'), _E('N', '*', 's'),
+    # electric field
+    _E('V', '/', 'cm'), _E('V', '/', 'angstrom'), _E('GV', '/', 'm'), _E('N', '/', 'C'), _E('eV', '/', _g(_E('e', '*', 'angstrom'))),
+    # entropy / heat capacity
+    _E('J', '/', _g(_E('mol', '*', 'K'))), _E('eV', '/', 'K'), _E('kcal', '/', _g(_E('mol', '*', 'K'))), _E('kB'),
+    # force
+    _E('eV', '/', 'angstrom'), _E('nN'), _E('kg', '*', 'm', '/', _u('s', '2')), _E('e', '*', 'V', '/', 'nm'),
+    # velocity (one with a fractional power)
+    _E('angstrom', '/', 'ps'), _E('m', '/', 's'), _E(_g(_E('eV', '/', 'amu'), '0.5')), _E('c0'),
+    # frequency, current
+    _E(_n('1'), '/', 'ps'), _E('THz'), _E(_u('s', '-1')), _E('C', '/', 's'), _E('A'), _E('e', '/', 'fs'),
+    # action, power
+    _E('eV', '*', 'fs'), _E('hbar'), _E('J', '*', 's'), _E('eV', '/', 'ps'), _E('W'), _E('V', '*', 'A'),
+    # mass density, surface energy
+    _E('g', '/', _u('cm', '3')), _E('amu', '/', _u('angstrom', '3')), _E('mJ', '/', _u('m', '2')), _E('eV', '/', _u('angstrom', '2')),
+    _E('N', '/', 'm'),
+    # capacitance, resistance, magnetic flux density
+    _E('C', '/', 'V'), _E(_u('e', '2'), '/', 'eV'), _E('F'), _E('V', '/', 'A'), _E('ohm'), _E('V', '*', 's', '/', _u('m', '2')), _E('T'),
+]
+BATTERY_TEXT = [ux.render(E) for E in BATTERY]
+assert len(BATTERY) <= g9.NBATTERY and len(set(BATTERY_TEXT)) == len(BATTERY)
+
+
+def _battery_pairs():
+    groups = {}
+    for i, E in enumerate(BATTERY):
+        groups.setdefault(tuple(round(v, 9) for v in ux.dim(E, BATTERY_DIM)), []).append(i)
+    pairs = []
+    for idx in groups.values():
+        if len(idx) < 2:
+            raise HarnessError('battery expression %r has no partner of equal dimension' % BATTERY_TEXT[idx[0]])
+        pairs += [(idx[k], idx[(k + 1) % len(idx)]) for k in range(len(idx))]       # a ring through the class: A->B, B->C, ..., Z->A
+    return pairs, len(groups)
+
+
+BATTERY_PAIRS, BATTERY_NCLASS = _battery_pairs()
+ONLY = ('change_', 'drop_', 'add_')
+
+
+def _next_choice(cur, step):
+    """the choice after `step` from the choice `cur` in force: differs from it in exactly one quantity (or is the same choice
+    for 'reorder'/'seed'/'SI'); an impossible step (adding a fifth or over-determining unit, dropping the last) changes a name"""
+    op = step['op']
+    if op in ('reorder', 'seed', 'SI'):
+        return dict(cur), op
+    q = g9.QUANT[step['q'] % len(g9.QUANT)]
+    new = dict(cur)
+    if op == 'add' and q not in cur and len(cur) < 4 and frozenset(cur) | {q} != g9.OVERDETERMINED:
+        new[q] = g9.NAMED_MORE[q][step['name'] % len(g9.NAMED_MORE[q])]
+        return new, 'add_' + q
+    if op == 'drop' and q in cur and len(cur) > 1:
+        del new[q]
+        return new, 'drop_' + q
+    if q not in cur:
+        have = [p for p in g9.QUANT if p in cur]
+        q = have[step['q'] % len(have)]
+    names = g9.NAMED_MORE[q]
+    if cur[q] in names:
+        new[q] = names[(names.index(cur[q]) + 1 + step['name'] % (len(names) - 1)) % len(names)]
+    else:
+        new[q] = names[step['name'] % len(names)]
+    return new, 'change_' + q
+
+
+def _close(got, exp, tol):
+    return bool(np.all(np.isfinite(got)) and np.all(np.abs(got - exp) <= tol * np.abs(exp)))
+
+
+def oracle_history(case):
+    uc = _uc()
+    labels = set()
+    x = case['x']
+    xr = np.array(x, dtype=float)
+    cur = dict(case['start']['units'])
+    extras = [(e['ast'], ux.render(e['ast'], e['ws'])) for e in case['extra']]
+    if extras:
+        labels.add('extra_exprs')
+    tables = {}           # choice -> unit table at its first visit
+    conv0 = {}            # (A, B) -> (result at the first evaluation, description of that step)
+    trail = []
+    nnamed, ntrans = 0, 0
+    steps = [{'op': 'start', 'mask': case['mask']}] + list(case['steps'])
+    try:
+        for k, step in enumerate(steps):
+            op = step['op']
+            if op == 'start':
+                order, what = case['start'].get('order'), 'start'
+            else:
+                cur, what = _next_choice(cur, step)
+                allo = g9.orders_of(tuple(cur))
+                order = allo[step['perm'] % len(allo)]
+            if op == 'seed':
+                seed = int(step['name']) % (2 ** 31)
+                here = 'reset_units(seed=%d)' % seed
+                uc.reset_units(seed=seed)
+                key = 'seed %d' % seed
+            elif op == 'SI':
+                here = "reset_units(seed='SI')"
+                uc.reset_units(seed='SI')
+                key = 'SI'
+            else:
+                here = 'reset_units(%s)' % _kw(cur, order)
+                uc.reset_units(**_ordered(cur, order))
+                key = json.dumps(cur, sort_keys=True)
+                nnamed += 1
+            labels.add(what)
+            if what.startswith(ONLY):
+                ntrans += 1
+                labels.add('only_' + what.split('_')[1])
+            trail.append(here)
+            hist = lambda: ' [step %d of the walk %s]' % (k, ' ; '.join(trail))
+
+            # (a) each chosen unit is one; the table is a function of the choice alone (same choice revisited, other keyword order)
+            if op not in ('seed', 'SI'):
+                try:
+                    _chosen_are_one(uc, cur, order)
+                except Violation as v:
+                    raise Violation(v.detail + hist(), key=v.key)
+            leaf = dict(uc.unit)
+            if key in tables:
+                labels.add('revisit')
+                t0 = tables[key]
+                for name in sorted(t0):
+                    require(abs(t0[name] - leaf[name]) <= 1e-12 * abs(t0[name]),
+                            lambda: '%s gives unit[%r] = %r, earlier in the same walk the same choice gave %r%s'
+                            % (here, name, leaf[name], t0[name], hist()))
+            else:
+                tables[key] = leaf
+
+            # (b) the battery (and the drawn expressions) against my evaluator over the CURRENT leaf values
+            mask = int(step['mask'])
+            val = {}
+            todo = [(i, BATTERY[i], BATTERY_TEXT[i]) for i in range(len(BATTERY)) if (mask >> i) & 1]
+            todo += [(-1 - j, E, t) for j, (E, t) in enumerate(extras)]
+            for i, E, text in todo:
+                try:
+                    f = ux.evaluate(E, leaf)
+                except ux.RangeSkip:
+                    labels.add('range_skip_entry')
+                    continue
+                if not 1e-200 < f < 1e200:
+                    labels.add('range_skip_entry')
+                    continue
+                got = uc.parse(text)
+                require(isinstance(got, (float, int)) and not isinstance(got, bool) and _close(got, f, 1e-12),
+                        lambda: 'after %s parse(%r) = %r, but the unit table in force gives %r%s' % (here, text, got, f, hist()))
+                w = np.asarray(uc.set_in_units(x, text), dtype=float)
+                require(w.shape == xr.shape and _close(w, xr * f, 1e-12),
+                        lambda: 'after %s set_in_units(%r, %r) = %r, but value*factor = %r%s' % (here, x, text, w.tolist(), (xr * f).tolist(), hist()))
+                o = np.asarray(uc.get_in_units(x, text), dtype=float)
+                require(o.shape == xr.shape and _close(o, xr / f, 1e-12),
+                        lambda: 'after %s get_in_units(%r, %r) = %r, but value/factor = %r%s' % (here, x, text, o.tolist(), (xr / f).tolist(), hist()))
+                if i >= 0:
+                    val[i] = f
+
+            # (c) conversions between battery expressions of equal dimension: right now, and unchanged along the walk
+            for a, b in BATTERY_PAIRS:
+                if a not in val or b not in val:
+                    continue
+                tA, tB = BATTERY_TEXT[a], BATTERY_TEXT[b]
+                r = np.asarray(uc.get_in_units(uc.set_in_units(x, tA), tB), dtype=float)
+                require(r.shape == xr.shape and _close(r, xr * (val[a] / val[b]), 1e-12),
+                        lambda: 'after %s converting %r from %r to %r gives %r, expected %r%s'
+                        % (here, x, tA, tB, r.tolist(), (xr * (val[a] / val[b])).tolist(), hist()))
+                if (a, b) in conv0:
+                    r0, then = conv0[(a, b)]
+                    require(_close(r, r0, 1e-10),
+                            lambda: 'converting %r from %r to %r gives %r after %s but gave %r after %s%s'
+                            % (x, tA, tB, r.tolist(), here, r0.tolist(), then, hist()))
+                else:
+                    conv0[(a, b)] = (r, here)
+            if mask != -1:
+                labels.add('partial_battery')
+    finally:
+        _restore(uc)
+    if ntrans >= 1 and nnamed >= 2:
+        labels.add('nt')
+    labels.add('steps_%d' % min(len(steps), 8))
     return labels
 
 
@@ -528,9 +749,18 @@ CLAUSES = [
            max_share={'range_skip': 0.05},
            desc='same-dimension expression pairs (class substitution / expansion from my dimension table): conversion A -> B gives the '
                 'same number under three working-unit configurations (1e-10)'),
+    Clause('history', oracle_history, g9.history_cases, quick=1200, thorough=40000,
+           min_share={'nt': 0.4},
+           desc='walks of 3-8 working-unit choices in one process, consecutive named choices differing in exactly one quantity '
+                '(name changed / dropped / added; keywords in a drawn order; occasional seed, SI and same-choice steps): after every '
+                'reset each chosen unit is one, a revisited choice gives the same table, a fixed battery of %d compound expressions '
+                '(%d dimension classes) and the drawn expressions agree with my evaluator over the current table through parse, '
+                'set_in_units and get_in_units (1e-12), and %d same-dimension conversions keep their value along the walk (1e-10)'
+                % (len(BATTERY), BATTERY_NCLASS, len(BATTERY_PAIRS))),
     Clause('named', oracle_named, enumerate=named_enumerate, nshards=1, min_share={'nt': 0.37, 'refusal': 0.01},
-           desc='exhaustive: every non-over-determined choice of <= 4 named working units: each chosen unit is one (1e-12) via '
-                'unit[], parse and get_in_units, after a different previous configuration; documented ValueError refusals'),
+           desc='exhaustive: every non-over-determined choice of <= 4 named working units, keywords passed in EVERY order: each '
+                'chosen unit is one (1e-12) via unit[], parse and get_in_units, the table is the same after different previous '
+                'configurations and for every keyword order; documented ValueError refusals'),
     Clause('lammps_dims', oracle_lammps, enumerate=lammps_enumerate, nshards=1, min_share={'nt': 0.4},
            desc='exhaustive: 8 styles x 13 mechanical keys: dimension exponents recovered by regression over 12 random seeds equal '
                 'the dimension of the quantity (1e-6); lj entries are None'),
